@@ -126,6 +126,18 @@ pub enum KeySpec {
     /// (strip trailing 0xFF, increment) optionally followed by 0x00 – the sibling that an
     /// increment-with-carry bound wrongly includes
     FfPair(u16, bool),
+    /// a long key: length from `LONG_KEY_LENS` (around 1 KiB .. 16 KiB, with and without the 64 id bytes of namespace and
+    /// author, on both sides of each boundary), filled with one byte (0x00, 'a', 0xFF) - limits that two code sites measure
+    /// differently (key vs. whole record id), multi-byte length prefixes, long runs of 0xFF
+    Long(u8, u8),
+}
+
+/// Lengths of `KeySpec::Long` keys.
+pub fn long_key_len(class: u8) -> usize {
+    const BASES: [usize; 4] = [1024, 4096, 8192, 16384];
+    const OFFS: [isize; 6] = [-65, -64, -63, -1, 0, 1];
+    let c = class as usize % (BASES.len() * OFFS.len());
+    (BASES[c / OFFS.len()] as isize + OFFS[c % OFFS.len()]) as usize
 }
 
 /// Smallest byte string greater than every string that starts with `k` (None for empty / all-FF).
@@ -179,6 +191,7 @@ pub fn resolve_keys(specs: &[KeySpec]) -> Vec<Vec<u8>> {
                     }
                 }
             }
+            KeySpec::Long(class, fill) => vec![[0x00u8, b'a', 0xFF][*fill as usize % 3]; long_key_len(*class)],
             KeySpec::FfPair(from, zero) => {
                 let mut base = if i == 0 || out.is_empty() { vec![b'a'] } else { out[crate::engine::idx(*from, out.len())].clone() };
                 if base.last() != Some(&0xFF) {
@@ -254,7 +267,16 @@ pub fn describe(e: &SignedEntry) -> String {
     } else {
         t.to_string()
     };
-    format!("({a},{},{ts},{c},len{})", hex::encode(e.key()), e.content_len())
+    format!("({a},{},{ts},{c},len{})", key_hex(e.key()), e.content_len())
+}
+
+/// Hex of a key; long keys are abbreviated to head, length and tail.
+pub fn key_hex(k: &[u8]) -> String {
+    if k.len() <= 40 {
+        hex::encode(k)
+    } else {
+        format!("{}..[{} bytes]..{}", hex::encode(&k[..4]), k.len(), hex::encode(&k[k.len() - 2..]))
+    }
 }
 
 pub fn describe_all(es: &[SignedEntry]) -> String {
